@@ -808,7 +808,8 @@ func (s *State) extendFunctionEnv(
 		n := len(params) - 1
 		params = params[:n]
 		// Expending the last argument expecting it to be "..", but any other array will do too.
-		if len(args) > 0 && args[len(args)-1].Type() == object.ARRAY {
+		// The argument may be a reference (an outer variable named inside a function body): test the value it denotes.
+		if len(args) > 0 && object.Value(args[len(args)-1]).Type() == object.ARRAY {
 			args = append(args[:len(args)-1], object.Elements(args[len(args)-1])...)
 		}
 		if len(args) >= n {
